@@ -45,7 +45,7 @@ def judge(ctx):
     ctx.sample = {"spec": ctx.spec, "projected_models": len(ms), "aux_vars": len(aux), "assignments_checked": checked}
 
 
-CFG = G.cfg(blocks=("cross", "cross", "multi"))
+CFG = G.cfg(blocks=("cross", "cross", "multi", "repeat", "merge", "nest"))
 P = D.DesignProperty(
     "C03", judge,
     rule=("case = generated design spec accepted by the constructor; its formula is built with build_cnf; up to max_checked "
